@@ -3,7 +3,7 @@ from fractions import Fraction as Fr
 import itertools
 from symnp import core
 from symnp.core import band, bor, bnot, iff, implies
-from .common import POOL, TINY, slice_points, DIP5
+from .common import POOL, TINY, slice_points, DIP5, get_curve, random_curves
 from .rdpstubs import Stubs, patched, tagged_points, well_formed, STUB_DOC
 
 PROPERTY = 'C04'
@@ -113,7 +113,7 @@ def run(h, case):
             red = h.ints(rdp.rdp(pts, t, dist_enum, cost_enum)[0])
             check_partition(h, red, n, metric, t, lambda a, b: st.cost(a, b), lambda l, r: [st.d(l, r, i) for i in range(l, r + 1)])
         return red
-    X, Y = slice_points(h, DIP5 if case['curve'] == 'dip5' else POOL[case['curve']], case['pos'])
+    X, Y = slice_points(h, get_curve(case['curve']), case['pos'])
     if h.sym and case.get('t_hint'):
         h.c.hints['t'] = Fr(case['t_hint'])
     n = len(X)
@@ -141,7 +141,7 @@ def repair(R, case, inputs):
     import numpy as np
     if case['layer'] != 'L0' or case['fn'] != 'rdp':
         return
-    curve = DIP5 if case['curve'] == 'dip5' else POOL[case['curve']]
+    curve = get_curve(case['curve'])
     pts = np.array([[float(a), float(Fr(inputs.get('y%d' % i, b)) if i in case['pos'] else b)] for i, (a, b) in enumerate(curve)], dtype=float)
     n = len(pts)
     cost = getattr(R.metrics.Metrics, case['metric'])
@@ -155,6 +155,14 @@ def repair(R, case, inputs):
                 alt = dict(inputs)
                 alt['t'] = str(Fr(v))
                 yield alt
+
+
+def realise(case, rnd):
+    """concretiser for abstract counterexamples: threshold RDP on small random integer curves (thresholds also moved onto computed costs by repair)"""
+    n = case['n']
+    for curve in random_curves(n, rnd, 60):
+        c2 = dict(layer='L0', fn='rdp', curve=curve, pos=[], distance=case['distance'], metric=case['metric'], realised_from=dict(n=n))
+        yield c2, dict(t='1/10')
 
 
 LEVEL_TEXT = ('Bounded symbolic model checking. L1: the real rdp.rdp runs over kernel stubs - the cost and the distances of every index range are free solver variables - and z3 '
